@@ -35,3 +35,28 @@ Theorem c02_singular_iff_all_zero : forall c usepr oldrow diagind thr,
   pr_singular (pivotL c usepr oldrow diagind thr) = true <-> maxmag c = 0.
 Proof. exact piv_singular_iff. Qed.
 Print Assumptions c02_singular_iff_all_zero.
+
+(* ---- rounding-error part ---- *)
+From Coq Require Import Reals.
+From SLU Require Import NumBase NumSum NumLU NumFlocq.
+Local Open Scope R_scope.
+
+(* Whenever the computed factors are related to B = Pr*A*Pc by the relational LU specification -- every entry a rounded
+   evaluation IN ANY SUMMATION ORDER of b_ij minus the (rounded or fused) products, L entries scaled by the rounded
+   reciprocal of the pivot -- then |B - L U| <= gamma(n) |L||U| componentwise; any unit roundoff 0 <= u < 1, n u < 1. *)
+Theorem c02_lu_backward : forall u, 0 <= u -> u < 1 -> forall n B L U, lu_rel u n B L U -> INR n * u < 1 ->
+  forall i j, (i < n)%nat -> (j < n)%nat ->
+    Rabs (B i j - bigsum (fun k => L i k * U k j) n) <= gamma u n * bigsum (fun k => Rabs (L i k) * Rabs (U k j)) n.
+Proof. exact lu_backward. Qed.
+Print Assumptions c02_lu_backward.
+
+(* IEEE round-to-nearest-even with 53 digits (binary64 without over/underflow) is an instance with u = 2^-53 ... *)
+Theorem c02_binary64_is_instance : forall x, fl_eq u53 x (rnd53 x).
+Proof. exact rnd53_fl_eq. Qed.
+Print Assumptions c02_binary64_is_instance.
+
+(* ... and left-to-right accumulation with such a rounding is one of the admitted summation orders *)
+Theorem c02_left_to_right_is_instance : forall u rnd, (forall x, fl_eq u x (rnd x)) ->
+  forall c xs, fl_sum_any u (c :: xs) (lr_sum rnd c xs).
+Proof. exact lr_sum_any. Qed.
+Print Assumptions c02_left_to_right_is_instance.
